@@ -551,38 +551,6 @@ func (r *UDPRelay) Close() {
 	r.bconn.Close()
 }
 
-// ---- payload helpers ---------------------------------------------------------------------------------------
-
-// PRF fills n bytes that depend on (tag, offset): a byte that crosses into another stream is recognisable.
-func PRF(tag uint64, off, n int) []byte {
-	out := make([]byte, n)
-	for i := range out {
-		x := tag*0x9E3779B97F4A7C15 + uint64(off+i)*0xBF58476D1CE4E5B9
-		x ^= x >> 29
-		x *= 0x94D049BB133111EB
-		x ^= x >> 32
-		out[i] = byte(x)
-	}
-	return out
-}
-
-// FirstDiff returns the first offset where a and b differ (or the shorter length), -1 when equal.
-func FirstDiff(a, b []byte) int {
-	n := len(a)
-	if len(b) < n {
-		n = len(b)
-	}
-	for i := 0; i < n; i++ {
-		if a[i] != b[i] {
-			return i
-		}
-	}
-	if len(a) != len(b) {
-		return n
-	}
-	return -1
-}
-
 // ReadFullTimeout reads exactly n bytes from c or stops at the deadline / EOF; returns what was read.
 func ReadFullTimeout(c net.Conn, n int, d time.Duration) ([]byte, error) {
 	out := make([]byte, 0, n)
